@@ -117,7 +117,17 @@ def run_group(args):
         # "equal inputs give equal outputs" must not hinge on what freshly allocated memory happens to contain: every run of the group gets a
         # different allocator fill byte (glibc MALLOC_PERTURB_: malloc'd and freed memory is filled with it) - not a parameter of the program
         env = {"MALLOC_PERTURB_": str(1 + (37 * vi + 11 * g) % 254)} if vi > 0 else None
-        res = prog.run_inovesa("rel", o, wd, xdg, timeout=900, env=env)
+        # ... and every second run after the first a process environment that differs in things that are no parameter of the simulation (prog.envmix)
+        if vi > 0:
+            em, emlab = prog.envmix(core.Rng("c12env", ctx.seed, g, vi), 0.5)
+            if em:
+                env = dict(env, **em); out["envs"] = out.get("envs", 0) + 1
+        # ... and where the log goes is no input either: one run in four after the first writes it to /dev/full (every write fails) or to a file
+        so = None
+        if vi > 0 and (vi + g) % 4 == 1:
+            so = "/dev/full" if (vi + g) % 8 == 1 else os.path.join(wd, "stdout.txt")
+            out["logs_elsewhere"] = out.get("logs_elsewhere", 0) + 1
+        res = prog.run_inovesa("rel", o, wd, xdg, timeout=900, env=env, stdout_to=so)
         bad = prog.program_outcome_key(res)
         if bad or res["rc"] != 0 or not os.path.exists(os.path.join(wd, oname)):
             out["incon"].append("group %d variant %d did not produce a file: %s %s" % (g, vi, bad, res["err"][-200:]))
@@ -221,6 +231,8 @@ def run(ctx):
             continue
         ctx.case(res["sig"])
         ctx.ev("runs", res["runs"])
+        ctx.ev("runs_in_a_changed_environment", res.get("envs", 0))
+        ctx.ev("runs_with_log_to_dev_full_or_file", res.get("logs_elsewhere", 0))
         ctx.ev("records_compared_bitwise", res["compared"])
         ctx.ev("final_steps_compared", res.get("final_steps_compared", 0))
         if res.get("unstable"):
